@@ -94,6 +94,8 @@ type CertOpts struct {
 	CDP         []string
 	OCSP        []string
 	DNSNames    []string
+	SKI         []byte // overrides the computed subject key identifier
+	NoBasicConstraints bool // omit the basicConstraints extension
 	NoSKI       bool
 	NoAKI       bool
 	NotBefore   time.Time
@@ -139,7 +141,7 @@ func template(o CertOpts) (*x509.Certificate, crypto.Signer) {
 		RawSubject:            o.RawSubject,
 		NotBefore:             nb,
 		NotAfter:              na,
-		BasicConstraintsValid: true,
+		BasicConstraintsValid: !o.NoBasicConstraints,
 		IsCA:                  o.IsCA,
 		ExtKeyUsage:           o.ExtKeyUsage,
 		CRLDistributionPoints: o.CDP,
@@ -149,6 +151,9 @@ func template(o CertOpts) (*x509.Certificate, crypto.Signer) {
 	}
 	if !o.NoSKI {
 		t.SubjectKeyId = ski(key.Public())
+		if o.SKI != nil {
+			t.SubjectKeyId = o.SKI
+		}
 	}
 	if !o.NoKeyUsage {
 		t.KeyUsage = o.KeyUsage
